@@ -475,10 +475,10 @@ func main() {
 	c.Guard("segments checked", segs > 100000, fmt.Sprint(segs))
 	c.Finish(vlib.Coverage{
 		States: states, Transitions: trans, Evaluations: states, Nontrivial: nontrivial,
-		Rule:       "states = value tables / scenes rendered through the real marching-squares renderers; transitions = segments checked; non-trivial = renders with at least one segment",
-		Samples:    samples,
-		Exhaustive: true,
-		Bounds:     map[string]any{"single_cell": "7^4 tables", "pairs": "2 orientations x 5^6 (thorough 7^6)", "interior": "2^16 sign tables of a 4x4 block", "analytic_jobs": len(ajobs), "ladder": ladder},
+		Rule:        "states = value tables / scenes rendered through the real marching-squares renderers; transitions = segments checked; non-trivial = renders with at least one segment",
+		Samples:     samples,
+		Exhaustive:  true,
+		Bounds:      map[string]any{"single_cell": "7^4 tables", "pairs": "2 orientations x 5^6 (thorough 7^6)", "interior": "2^16 sign tables of a 4x4 block", "analytic_jobs": len(ajobs), "ladder": ladder},
 		Assumptions: []string{"boundary corners carry positive values so contours stay inside the box", "quadtree tables scaled so nothing is prunable (pruning: C07)", "degree exactly 2 is required only for tables without zero/tiny values (saddles give 4)"},
 	})
 }
